@@ -52,6 +52,22 @@ strengthened = {
  "C17-10": "missed at first by C17 (caught by C10): C17 never set IgnoreRaw; configuration added",
  "C18-9": "missed at first: documents without blocks were skipped; walks over the zero Node of an empty document (virtual root and library defaults) added",
  "C02-9": "missed at first: no backslash before a non-ASCII character inside an info string; backslash before non-ASCII / NUL / invalid bytes added in every place where escapes are processed (info strings, destinations, titles, labels, attribute values, code spans)",
+ "C04-12": "missed at first by C04 (caught by C15 and C10): no destination ended in a truncated percent escape; fragments added",
+ "C05-12": "missed at first: the grammar still counted Indent as phrasing content (true on the pinned tree before the continuation-line repair); removed after 12 million cases showed the repaired tree never puts an Indent directly into a paragraph, heading, emphasis or link text",
+ "C06-12": "owned by C11 and C15, which catch it (the model never puts a symbol next to a delimiter run)",
+ "C07-11": "missed at first: the renderer always got the document's own map; one case in five now renders with no map and with a foreign map",
+ "C08-11": "missed at first: only the harness's own reader type was used; check std_readers (bytes / strings / Section / bufio / iotest readers, half of them positioned past the start) added",
+ "C08-12": "missed at first: no single block over 120 KB; check large_blocks (300 KB to just under the 1 MiB limit, and blank-line runs of 0.6-2 MB) added",
+ "C09-12": "missed at first: D never had 20 nested containers; checks quote_deep / list_deep (gen.Deep) added",
+ "C10-12": "missed at first: no numeric reference in the C1 range; every class of numeric reference added to the fragments and payloads",
+ "C11-11": "missed at first: no supplementary-plane punctuation; U+10100 added to the extended alphabet",
+ "C11-12": "missed at first: no bracket in the alphabets; exhaustive check over {* _ a SP [ !} added (openers that are never closed are plain punctuation)",
+ "C12-11": "missed at first: full references always had link text; empty link text added",
+ "C12-12": "missed at first: the use was always followed by a word; uses at the end of a line, as ATX heading content and as the last bytes of a document without final newline added",
+ "C14-12": "missed at first: pads were 1-5 lines and only went through Parse; the padding relation now also runs through the streaming parser, and check long_padding uses 0.9-2.2 MB of blank lines",
+ "C19-11": "missed at first: every goroutine had its own InlineParser; one shared InlineParser value added, and panics on goroutines are recovered into violations",
+ "C19-12": "missed at first: the expected results were computed from the shared tree before the goroutines started, which warmed any first-use cache; they now come from a second parse and the shared tree and map are fresh",
+ "C20-12": "missed at first by C20 (caught by C15): canonical destinations were plain ASCII; destinations with characters to encode (also last) added",
  "C19-4": "missed at first: batches had no long destination that needs percent-encoding; rare-path constructs added to every batch",
 }
 rows = []
